@@ -122,7 +122,7 @@ def shard_flows(ctx: Ctx) -> None:  # noqa: C901, PLR0912, PLR0915
         how = ("software", "psbt.sign")[it % 2]
         desc = {"shapes": shapes, "signer": how}
         try:
-            fl = g.build(shapes)
+            fl = g.build(shapes, sighash_first=(it + ctx.params["part"]) if it % 2 == 0 else None)
             desc.update({"psbt_version": fl.psbt_version, "sighash": fl.sighash})
             g.sign(fl, how)
             g.finish(fl)
